@@ -33,4 +33,4 @@ const (
 )
 
 func verifTick(which int)                    {}
-func verifGauge(strms, open, closedRing int) {}
+func verifGauge(strms, open, closedRing int, recvWindow, sendWindow int64) {}
